@@ -495,6 +495,12 @@ class Cont(object):
         self.env = env
 
 
+class RecordReplace(object):
+    """record._replace of a record object built by the specialiser (Spec.record_classes): a new record with the named fields replaced"""
+    def __init__(self, inst):
+        self.inst = inst
+
+
 class NeedSplit(Exception):
     """a comparison over a ranged atom is not decided by its current range: the driver splits the range at `point` (cases <= point and > point)"""
     def __init__(self, atom, point):
@@ -1023,6 +1029,8 @@ class Spec(object):
                 return BoundMethod(m, v)
             if m is not None:
                 return m
+            if attr == "_replace" and v.cls.name in getattr(self, "record_classes", ()):
+                return RecordReplace(v)
             return Top("noattr %s.%s" % (v.cls.qualname, attr))
         if isinstance(v, SuperProxy):
             mro = v.inst.cls.mro()
@@ -1279,6 +1287,11 @@ class Spec(object):
             b = self.call(f.b, args, kw, node, env)
             self.guards.pop()
             return phi(f.cond, a, b)
+        if isinstance(f, RecordReplace):
+            new_ = Instance(f.inst.cls)
+            new_.attrs.update(f.inst.attrs)
+            new_.attrs.update(kw)
+            return new_
         if isinstance(f, BoundMethod):
             return self.call_func(f.func, [f.self] + list(args), kw, node)
         if isinstance(f, FuncRef):
